@@ -15,6 +15,11 @@ Proof. exact (check_view_ok Mso). Qed.
    removes delimiters) does not change what Outlook sees *)
 Theorem C03_body_wellformed : forall bs ts, Forall (ok_frag Mso) bs -> merges (List.concat bs) ts -> ok_frag Mso ts.
 Proof. exact (body_ok Mso). Qed.
+(* the same with the premise weakened to what the readings can see: the observed body is a seam-merge of the blocks' own
+   bodies up to the attributes of start tags (a block may write other attributes depending on its neighbours) *)
+Theorem C03_body_wellformed_modulo_attributes : forall bs ts, Forall (ok_frag Mso) bs ->
+  merges (map strip_attrs (List.concat bs)) (map strip_attrs ts) -> ok_frag Mso ts.
+Proof. exact (body_ok_modulo_attrs Mso). Qed.
 
 Theorem C03_merging_seams_keeps_outlook_view : forall ts ts', merges ts ts' -> forall st r, view Mso st ts = Some r -> view Mso st ts' = Some r.
 Proof. exact (merges_preserve_view Mso). Qed.
@@ -49,3 +54,4 @@ Print Assumptions C03_body_wellformed.
 Print Assumptions C03_merging_seams_keeps_outlook_view.
 Print Assumptions C03_fill_hole.
 Print Assumptions C03_core_grammar_wellformed.
+Print Assumptions C03_body_wellformed_modulo_attributes.
